@@ -3,7 +3,6 @@ package props
 import (
 	"encoding/hex"
 	"fmt"
-	"strings"
 
 	"verifharness/fw"
 	"verifharness/refdec"
@@ -87,6 +86,11 @@ func c3993Check(c *fw.Ctx, fam string, s string, cs, full bool) {
 				ok = asciiOnly(s)
 			} else {
 				ok = allIn(s, refC39)
+				if fam == "code93" && !ok {
+					// the four special characters ($)(%)(/)(+) are characters of the symbology;
+					// the package exports them as FNC1..FNC4 (U+00F1..U+00F4)
+					ok = allIn(s, refC39+"ñòóô")
+				}
 			}
 			if ok {
 				c.Violation(fam+"/rejected", "representable text rejected: "+o.err.Error(), inner, "")
@@ -95,9 +99,6 @@ func c3993Check(c *fw.Ctx, fam string, s string, cs, full bool) {
 		return
 	}
 	opt := fmt.Sprintf("cs=%v,full=%v", cs, full)
-	if fam == "code93" && !full && strings.ContainsAny(s, "ñòóô") {
-		return // don't-care
-	}
 	retainObserve(c, fam, o.bc, inner, 3)
 	bits, err := row1D(o.bc)
 	if err != nil {
@@ -173,6 +174,21 @@ func (p c07) Exec(c *fw.Ctx, u *fw.Unit) {
 				c3993AllMixes(c, fam, string([]byte{byte(a), byte(b)}), (a+b)%2 == 1)
 			}
 		}
+		if fam == "code93" && lo == 0 {
+			// the four special characters alone, in pairs and next to every basic character
+			sp := []string{"ñ", "ò", "ó", "ô"}
+			for i, a := range sp {
+				c3993AllMixes(c, fam, a, i%2 == 1)
+				for _, b := range sp {
+					c3993AllMixes(c, fam, a+b, false)
+				}
+				for j := 0; j < len(refC39); j++ {
+					c3993AllMixes(c, fam, a+refC39[j:j+1], j%2 == 1)
+					c3993AllMixes(c, fam, refC39[j:j+1]+a, j%2 == 0)
+				}
+			}
+			c.Cover("code93_special_characters_basic_mode", "len<=2")
+		}
 		c.Cover("exhaustive_len<=2_ascii", fam)
 	case "c3993.exh3":
 		if u.Int(0) == 1 {
@@ -243,6 +259,16 @@ func (p c07) Exec(c *fw.Ctx, u *fw.Unit) {
 			}
 			n := r.Intn(61)
 			txt := string(randBytes(r, n, ab))
+			if fam == "code93" && !full && i%5 == 0 {
+				// basic mode over all 47 characters: the special characters ($)(%)(/)(+)
+				// are written U+00F1..U+00F4 (the package's FNC1..FNC4)
+				rs := []rune(txt)
+				for k := 0; k < 1+r.Intn(4); k++ {
+					p := r.Intn(len(rs) + 1)
+					rs = append(rs[:p], append([]rune{rune(0xf1 + r.Intn(4))}, rs[p:]...)...)
+				}
+				txt = string(rs)
+			}
 			c3993Check(c, fam, txt, r.Intn(2) == 1, full)
 			if i%4 == 0 {
 				c3993AllMixes(c, fam, txt, r.Intn(2) == 1)
